@@ -882,3 +882,59 @@ func init() {
 	addControl(control{Prop: "C10", Name: "string-copy-with-the-payload-in-a-local", Rule: "R10e", Kind: "refactor",
 		File: "types.go", Old: "func (c *cfgString) cpy(ctx context) value { return newString(ctx, c.meta(), c.s) }", New: "func (c *cfgString) cpy(ctx context) value {\n	text := c.s\n	return newString(ctx, c.meta(), text)\n}"})
 }
+
+func init() {
+	// ---------------- round 8: rules that guard the repairs found by hunting, and the seeded misses ----------------
+	addControl(control{Prop: "C09", Name: "map-keys-ordered-by-their-text-alone", Rule: "R09d", Kind: "mutant", Quick: true,
+		File: "merge.go", Old: "		return mapKeyLess(keys[i], keys[j])\n", New: "		return mapKeyString(keys[i]) < mapKeyString(keys[j])\n", Expect: "R09d/ucfg.normalizeMapInto"})
+	addControl(control{Prop: "C09", Name: "tie-break-without-the-type", Rule: "R09d", Kind: "mutant",
+		File: "merge.go", Old: "	return mapKeyType(a) < mapKeyType(b)\n", New: "	return len(sa) < len(sb)\n", Expect: "R09d/"})
+	addControl(control{Prop: "C07", Name: "setchild-accepts-its-ancestors", Rule: "R07r", Kind: "mutant", Quick: true,
+		File: "getset.go", Old: "	for p := c; p != nil; p = p.Parent() {\n		if p == value {\n			return raiseCyclicErr(name)\n		}\n	}\n", New: "	if c == value {\n		return raiseCyclicErr(name)\n	}\n", Expect: "R07r/(*ucfg.Config).SetChild"})
+	addControl(control{Prop: "C07", Name: "dict-dereferences-a-nil-receiver", Rule: "R07s", Kind: "mutant", Quick: true,
+		File: "ucfg.go", Old: "func (f *fields) dict() map[string]value {\n	if f == nil {\n		return nil\n	}\n	return f.d\n}\n", New: "func (f *fields) dict() map[string]value {\n	return f.d\n}\n", Expect: "R07s/(*ucfg.fields).dict"})
+	addControl(control{Prop: "C07", Name: "nil-interface-initializer-asserted", Rule: "R07d", Kind: "mutant", Quick: true,
+		File: "initializer.go", Old: "	if (t.Kind() == reflect.Ptr || t.Kind() == reflect.Interface) && val.IsNil() {\n		return val\n	}\n\n	var initializer Initializer\n", New: "	var initializer Initializer\n", Expect: "R07d/ucfg.tryInitDefaults"})
+	addControl(control{Prop: "C12", Name: "countfield-looks-its-name-up-literally", Rule: "R12l", Kind: "mutant", Quick: true,
+		File: "getset.go", Old: "	O := makeOptions(opts)\n	v, err := c.getField(name, -1, O)\n	if err != nil {\n		return -1, err\n	}\n\n	n, fail := v.Len(O)\n", New: "	O := makeOptions(opts)\n	v, ok := c.fields.get(name)\n	if !ok {\n		return -1, raiseMissing(c, name)\n	}\n\n	n, fail := v.Len(O)\n", Expect: "R12l/(*ucfg.Config).CountField"})
+	addControl(control{Prop: "C12", Name: "getfield-answers-literally-first", Rule: "R12i", Kind: "mutant",
+		File: "getset.go", Old: "func (c *Config) getField(name string, idx int, opts *options) (value, Error) {\n", New: "func (c *Config) getField(name string, idx int, opts *options) (value, Error) {\n	if idx < 0 {\n		if v, ok := c.fields.get(name); ok {\n			return v, nil\n		}\n	}\n", Expect: "R12i/(*ucfg.Config).getField"})
+	addControl(control{Prop: "C06", Name: "prefilled-regexp-demands-an-object", Rule: "R06k", Kind: "mutant", Quick: true,
+		File: "reify.go", Old: "			if baseType == tRegexp {\n				// a struct with a primitive encoding: the new value\n				// replaces the one in place, like in reifyValue\n				return reifyPrimitive(opts, val, t, baseType)\n			}\n", New: "", Expect: "R06k/ucfg.reifyMergeValue"})
+	addControl(control{Prop: "C13", Name: "untagged-fields-reset-the-policy", Rule: "R13g", Kind: "mutant", Quick: true,
+		File: "util.go", Old: "	if tagOpts.cfgHandling != cfgDefaultHandling && tagOpts.cfgHandling != opts.configValueHandling {", New: "	if tagOpts.cfgHandling != opts.configValueHandling {", Expect: "R13g/ucfg.accessField"})
+	addControl(control{Prop: "C15", Name: "empty-name-taken-for-the-root", Rule: "R15j", Kind: "mutant", Quick: true,
+		File: "types.go", Old: "	if c.parent == nil {\n		// the root, or a value that is not part of a tree yet\n		return c.field\n	}\n", New: "	if c.field == \"\" {\n		return \"\"\n	}\n	if c.parent == nil {\n		return c.field\n	}\n", Expect: "R15j/(*ucfg.context).path"})
+	addControl(control{Prop: "C15", Name: "list-part-only-for-nodes-that-are-no-dictionary", Rule: "R15k", Kind: "mutant", Quick: true,
+		File: "ucfg.go", Old: "	for _, a := range c.fields.array() {\n		opts.activeFields = newFieldSet(parentFields)\n		keys = appendFlattenedKeys(keys, a, opts)\n	}\n", New: "	if !c.IsDict() {\n		for _, a := range c.fields.array() {\n			opts.activeFields = newFieldSet(parentFields)\n			keys = appendFlattenedKeys(keys, a, opts)\n		}\n	}\n", Expect: "R15k/"})
+	addControl(control{Prop: "C15", Name: "flattened-keys-by-node-type", Rule: "R15l", Kind: "mutant",
+		File: "ucfg.go", Old: "	subcfg, err := v.toConfig(opts)\n	if err != nil {\n		ctx := v.Context()\n		return append(keys, ctx.path(opts.pathSep))\n	}\n	return append(keys, subcfg.flattenedKeys(opts)...)\n", New: "	switch v.(type) {\n	case cfgSub, *cfgDynamic:\n		if subcfg, err := v.toConfig(opts); err == nil {\n			return append(keys, subcfg.flattenedKeys(opts)...)\n		}\n	}\n	ctx := v.Context()\n	return append(keys, ctx.path(opts.pathSep))\n", Expect: "R15l/"})
+	addControl(control{Prop: "C18", Name: "null-reads-as-a-config-without-source", Rule: "R18j", Kind: "mutant", Quick: true,
+		File: "types.go", Old: "	n.ctx = c.ctx\n	n.metadata = c.metadata\n", New: "	n.ctx = c.ctx\n", Expect: "R18j/(*ucfg.cfgNil).toConfig"})
+	addControl(control{Prop: "C18", Name: "setter-metadata-after-the-store", Rule: "R18j", Kind: "mutant",
+		File: "getset.go", Old: "	if opts.meta != nil {\n		v.setMeta(opts.meta)\n	}\n	return p.SetValue(c, opts, v)\n", New: "	if err := p.SetValue(c, opts, v); err != nil {\n		return err\n	}\n	if opts.meta != nil {\n		v.setMeta(opts.meta)\n	}\n	return nil\n", Expect: "R18j/(*ucfg.Config).setField"})
+	addControl(control{Prop: "C01", Name: "null-in-the-destination-read-as-an-object", Rule: "R01e", Kind: "mutant", Quick: true,
+		File: "merge.go", Old: "	if isNil(old) {\n		return v, nil\n	}\n", New: "	if old == nil {\n		return v, nil\n	}\n", Expect: "R01e/ucfg.mergeValues/null old"})
+	addControl(control{Prop: "C04", Name: "max-looks-at-the-pointer", Rule: "R04i", Kind: "mutant", Quick: true,
+		File: "validator.go", Old: "	val := chaseValue(reflect.ValueOf(v))\n	switch val.Kind() {\n	case reflect.Int, reflect.Int8, reflect.Int16, reflect.Int32, reflect.Int64:\n		max, err := strconv.ParseInt(param, 0, 64)", New: "	val := reflect.ValueOf(v)\n	switch val.Kind() {\n	case reflect.Int, reflect.Int8, reflect.Int16, reflect.Int32, reflect.Int64:\n		max, err := strconv.ParseInt(param, 0, 64)", Expect: "R04i/ucfg.validateMax"})
+	addControl(control{Prop: "C04", Name: "strings-recognised-by-assertion", Rule: "R04i", Kind: "mutant",
+		File: "validator.go", Old: "	if s := reflect.ValueOf(v); s.Kind() == reflect.String {\n		if s.Len() == 0 {\n			return ErrStringEmpty\n		}\n		return nil\n	}\n", New: "	if s, ok := v.(string); ok {\n		if s == \"\" {\n			return ErrStringEmpty\n		}\n		return nil\n	}\n", Expect: "R04i/ucfg.validateNonEmptyWithAllowNil"})
+	addControl(control{Prop: "C19", Name: "usage-error-reported-but-not-latched", Rule: "R19g", Kind: "mutant", Quick: true,
+		File: "flag/value.go", Old: "				err := fmt.Errorf(\"argument '%v' is empty \", arg)\n				return nil, err, err\n", New: "				err := fmt.Errorf(\"argument '%v' is empty \", arg)\n				return nil, nil, err\n", Expect: "R19g/flag.NewFlagKeyValue"})
+	addControl(control{Prop: "C20", Name: "indexed-address-parses-the-name-without-numeric-keys", Rule: "R20g", Kind: "mutant", Quick: true,
+		File: "path.go", Old: "	p := parsePathWithOpts(in, opts)\n	if idx >= 0 {\n", New: "	p := parsePath(in, opts.pathSep, opts.maxIdx, opts.enableNumKeys && idx < 0, opts.escapePath)\n	if idx >= 0 {\n", Expect: "R20g/ucfg.parsePathIdx"})
+	addControl(control{Prop: "C02", Name: "resolver-error-ends-the-search", Rule: "R02e", Kind: "mutant",
+		File: "variables.go", Old: "			v, cfg, err = resolver(key)\n			if err == nil {\n				return v, cfg, nil\n			}\n", New: "			v, cfg, err = resolver(key)\n			if err == nil {\n				return v, cfg, nil\n			}\n			if err != ErrMissing {\n				break\n			}\n", Expect: "R02e/(*ucfg.reference).resolveEnv/a failing resolver hands over"})
+	addControl(control{Prop: "C04", Name: "inlined-list-skipped-without-validation", Rule: "R04j", Kind: "mutant",
+		File: "reify.go", Old: "				case reflect.Slice, reflect.Array:\n					fopts := fieldOptions{opts: fInfo.options, tag: fInfo.tagOptions, validators: fInfo.validatorTags}\n", New: "				case reflect.Slice, reflect.Array:\n					if cfg.fields.array() == nil {\n						continue\n					}\n					fopts := fieldOptions{opts: fInfo.options, tag: fInfo.tagOptions, validators: fInfo.validatorTags}\n", Expect: "R04j/ucfg.reifyStruct"})
+}
+
+func init() {
+	// ---------------- after round 8: merging over a reference ----------------
+	addControl(control{Prop: "C10", Name: "merge-writes-into-what-a-reference-points-to", Rule: "R10f", Kind: "mutant", Quick: true,
+		File: "merge.go", Old: "	if !isSub(old) {\n		subOld = cfgSub{subOld}.cpy(old.Context()).(cfgSub).c\n	}\n", New: "", Expect: "R10f/ucfg.mergeValues/merge target owned"})
+	addControl(control{Prop: "C10", Name: "stored-sub-config-recognised-by-assertion", Rule: "R10f", Kind: "refactor",
+		File: "merge.go", Old: "	if !isSub(old) {\n		subOld = cfgSub{subOld}.cpy(old.Context()).(cfgSub).c\n	}\n", New: "	if _, stored := old.(cfgSub); !stored {\n		cpy := cfgSub{subOld}.cpy(old.Context())\n		subOld = cpy.(cfgSub).c\n	}\n"})
+	addControl(control{Prop: "C07", Name: "sub-config-copy-that-can-return-a-null", Rule: "R07d", Kind: "mutant",
+		File: "types.go", Old: "func (c cfgSub) cpy(ctx context) value {\n", New: "func (c cfgSub) cpy(ctx context) value {\n	if c.c == nil {\n		return &cfgNil{cfgPrimitive{ctx, nil}}\n	}\n", Expect: "R07d/ucfg.mergeValues/assert to ucfg.cfgSub"})
+}
